@@ -149,7 +149,19 @@ _struct_dict = {
 }
 
 
-@lru_cache(maxsize=65536)
+def _write_struct(representation_code: RepresentationCode, value: Any) -> bytes:
+    """Convert a value to bytes according to the RP66 V1 spec (see write_struct)."""
+
+    func = _struct_dict.get(representation_code, None)  # get a converter corresponding to the repr code
+    if func:
+        return func(value)  # type: ignore  # that's the point, we're calling for any type
+
+    return representation_code.convert(value)  # if no converter was found, use the one built in the enum
+
+
+_write_struct_cached = lru_cache(maxsize=65536)(_write_struct)
+
+
 def write_struct(representation_code: RepresentationCode, value: Any) -> bytes:
     """Convert a value to bytes according to the RP66 V1 spec.
 
@@ -159,10 +171,13 @@ def write_struct(representation_code: RepresentationCode, value: Any) -> bytes:
 
     Returns:
         Value converted to bytes depending on representation_code and RP66 V1 spec.
+
+    Note:
+        Results are memoised only for plain int and str values. Values of other types can compare (and hash) equal
+        while having different encodings (-0.0 and 0.0; 1, 1.0 and True written as text) or can change between calls
+        (objects referenced by name), so they are always converted anew.
     """
 
-    func = _struct_dict.get(representation_code, None)  # get a converter corresponding to the repr code
-    if func:
-        return func(value)  # type: ignore  # that's the point, we're calling for any type
-
-    return representation_code.convert(value)  # if no converter was found, use the one built in the enum
+    if type(value) in (int, str):
+        return _write_struct_cached(representation_code, value)
+    return _write_struct(representation_code, value)
